@@ -8,6 +8,7 @@ symbolic value tree with the semantics of the few Python operations it models an
 """
 import ast
 import operator
+import re
 
 from .pathwalk import Walker, PathState, is_const
 
@@ -19,12 +20,37 @@ _CMP = {'==': operator.eq, '!=': operator.ne, '<': operator.lt, '<=': operator.l
         'in': lambda a, b: a in b, 'not in': lambda a, b: a not in b, 'is': lambda a, b: a is b or (a == b and a is None is b),
         'is not': lambda a, b: not (a is b)}
 _STR_METHODS = {'lower', 'upper', 'strip', 'lstrip', 'rstrip', 'format', 'join', 'startswith', 'endswith', 'replace', 'title', 'swapcase',
-                'capitalize', 'casefold', 'isupper', 'islower', 'zfill'}
+                'capitalize', 'casefold', 'isupper', 'islower', 'zfill', 'split', 'rsplit', 'partition', 'rpartition', 'splitlines', 'find',
+                'rfind', 'index', 'count', 'removeprefix', 'removesuffix', 'isspace', 'isdigit', 'expandtabs'}
+_RE_FUNCS = {'re.compile': re.compile, 're.match': re.match, 're.search': re.search, 're.fullmatch': re.fullmatch, 're.sub': re.sub, 're.split': re.split,
+             're.findall': re.findall}
+_PATTERN_METHODS = {'match', 'search', 'fullmatch', 'sub', 'split', 'findall'}
+_MATCH_METHODS = {'group', 'groups', 'start', 'end', 'span'}
 _DICT_METHODS = {'items', 'keys', 'values', 'get'}
+
+
+_BUILTIN_TYPES = {'str': str, 'int': int, 'bytes': bytes, 'list': list, 'tuple': tuple, 'dict': dict, 'bool': bool, 'float': float, 'set': set}
+
+
+class RepoClass:
+    """A class of the analysed repository (never instantiated here): plain sample values are not instances of it."""
+
+    def __init__(self, name):
+        self.name = name
+
+    def __eq__(self, o):
+        return isinstance(o, RepoClass) and o.name == self.name
+
+    def __hash__(self):
+        return hash(('RepoClass', self.name))
 
 
 class Undecided(Exception):
     pass
+
+
+class UnpackFailed(Undecided):
+    """A sequence is unpacked into the wrong number of targets (the analysed code would raise ValueError)."""
 
 
 class LookupFailed(Undecided):
@@ -214,6 +240,10 @@ class SymEval:
         if k == 'name':
             if v[1] in ('True', 'False', 'None'):
                 return {'True': True, 'False': False, 'None': None}[v[1]]
+            if v[1] in _BUILTIN_TYPES and (self.facts is None or v[1] not in self.facts.assign_nodes):
+                return _BUILTIN_TYPES[v[1]]
+            if self.facts is not None and v[1] in self.facts.classes:
+                return RepoClass(v[1])
             return self.module_value(v[1])
         if k == 'attr':
             try:
@@ -255,7 +285,7 @@ class SymEval:
             except TypeError:
                 raise Undecided('unpacking a {}'.format(type(base).__name__))
             if isinstance(n, int) and n > 0 and len(seq) != n:
-                raise Undecided('unpacking {} values into {} targets'.format(len(seq), n))
+                raise UnpackFailed('unpacking {} values into {} targets'.format(len(seq), n))
             idx = v[2]
             if ':' in idx:
                 a, b = idx.split(':')
@@ -308,6 +338,12 @@ class SymEval:
                     return getattr(recv, v[2])(*args, **kwargs)
                 except Exception as e:
                     raise Undecided(str(e))
+            if isinstance(recv, re.Pattern) and v[2] in _PATTERN_METHODS or isinstance(recv, re.Match) and v[2] in _MATCH_METHODS:
+                # the library's regular-expression engine applied to a pattern read from the source and a sample text
+                try:
+                    return getattr(recv, v[2])(*args, **kwargs)
+                except Exception as e:
+                    raise Undecided(str(e))
             if isinstance(recv, dict) and v[2] in _DICT_METHODS:
                 self.table_domains.append(tuple(recv.keys()))
                 r = getattr(recv, v[2])(*args)
@@ -317,10 +353,22 @@ class SymEval:
             name = v[1]
             args = [self.ev(a) for a in v[2]]
             kwargs = {n: self.ev(a) for n, a in v[3]}
+            if name in _RE_FUNCS:
+                try:
+                    return _RE_FUNCS[name](*args, **kwargs)
+                except Exception as e:
+                    raise Undecided(str(e))
             if name == 'struct.calcsize' and len(args) == 1 and not kwargs:
                 return calcsize(args[0])
             if name == 'struct.Struct' and len(args) == 1 and not kwargs:
                 return StructObj(args[0])
+            if name == 'type' and len(args) == 1 and not kwargs:
+                return type(args[0])
+            if name == 'isinstance' and len(args) == 2 and not kwargs:
+                classes = args[1] if isinstance(args[1], tuple) else (args[1],)
+                if all(isinstance(c, (type, RepoClass)) for c in classes) and isinstance(args[0], (str, int, bytes, list, tuple, dict, type(None))):
+                    return any(isinstance(c, type) and isinstance(args[0], c) for c in classes)
+                raise Undecided('isinstance')
             if name in ('len', 'int', 'str', 'bool', 'abs', 'min', 'max', 'list', 'tuple', 'sorted', 'dict', 'set', 'frozenset', 'sum', 'ord', 'chr', 'range', 'zip', 'enumerate'):
                 try:
                     r = {'len': len, 'int': int, 'str': str, 'bool': bool, 'abs': abs, 'min': min, 'max': max, 'list': list, 'tuple': tuple, 'sorted': sorted,
